@@ -140,6 +140,19 @@ def c14_cases(tier, rng):
         for dec in (g.se(550, "5.7.1", b"blocked"), g.se(451, "4.3.0", b"later"), "ok"):
             c = E2E(); c.mail(b"blocked@x.org", full, dec=dec); c.mail(b"allowed@x.org", second); c.rcpt(b"r@x.org")
             c.data([b"m\r\n"]); cases.append(c.case())
+    # the client authenticates, re-reads the capability list (Reset sends a new EHLO) and then names the AUTH= identity of the message:
+    # what the list says after authentication must not make the client drop the parameter
+    for ident in (b"bob@x.org", b"", b"a+b=c@d.org"):
+        for pre in (["auth"], ["auth", "reset"], ["auth", "reset", "reset"], ["reset", "auth", "reset"]):
+            c = E2E()
+            for p_ in pre:
+                if p_ == "auth":
+                    c.call("auth", hx(b"PLAIN"), hx(b"\x00u\x00p"), "")
+                else:
+                    c.call("reset")
+            c.mail(b"s@x.org", dict(auth=ident, size=5)); c.rcpt(b"r@x.org"); c.data([b"m\r\n"])
+            c.call("reset"); c.mail(b"s2@x.org", dict(auth=ident)); c.rcpt(b"r2@x.org"); c.data([b"n\r\n"])
+            cases.append(c.case())
     # every option subset
     fields_m = [("size", 12345), ("utf8", 1), ("ret", b"HDRS"), ("envid", rng.choice([b"id+1=x y", b"50%off %s %d%%", b"100%"])),
                 ("auth", rng.choice([b"u@d", b"100%user@d.org", b"a%sb@d"])), ("body", b"8BITMIME")]
